@@ -44,6 +44,3 @@ fn arena_bytes<'a>(ptr: &NonNull<u8>, size: usize) -> (r: &'a [u8])
 { unimplemented!() }
 
 
-// std: u64::from(bool) is 1 for true and 0 for false
-pub assume_specification [<u64 as core::convert::From<bool>>::from] (b: bool) -> (r: u64)
-    ensures r == (if b { 1u64 } else { 0u64 });
